@@ -369,7 +369,7 @@ def p2i_adapter_defects(c):
     if len(i) != 1 or len(m) != 1:
         return False
     neg_scale0 = i[0] == 1 and m[0] == (1 << ni) - 1
-    return neg_scale0 or ni < fbits + 1
+    return neg_scale0 or ni <= fbits + 1      # == : the hidden bit lands in the sign bit of the integer
 
 
 @pred
